@@ -144,5 +144,14 @@ def outcome(fn, *args):
     try:
         r = fn(*args)
     except BaseException as e:  # noqa: BLE001
+        if AFTER_CALL_HOOK is not None:
+            AFTER_CALL_HOOK()
         return ["exc", sig_exc(e)], None
+    if AFTER_CALL_HOOK is not None:
+        AFTER_CALL_HOOK()
     return ["ok", sig_value(r)], r
+
+
+# set by histsim while an interrupt is armed: computing a signature calls adaptix code too (reprs of trail
+# elements, __eq__ of models); the fault belongs to the call under test, never to the harness
+AFTER_CALL_HOOK = None
